@@ -115,7 +115,9 @@ def run(ctx):
     frames = []
     for f in [x for x in thread_side.values() if x.cls is pi]:
         cfg = ctx.cfg(f)
-        writes = [cfg.node_of(c) for c in q.calls(f) if isinstance(c.func, ast.Attribute) and c.func.attr.startswith("write") and is_self_attr(c.func.value)]
+        al_ = q.direct_aliases(f)  # `io = self._io; io.write(..)` writes to the same output
+        writes = [cfg.node_of(c) for c in q.calls(f) if isinstance(c.func, ast.Attribute) and c.func.attr.startswith("write")
+                  and (is_self_attr(c.func.value) or (isinstance(c.func.value, ast.Name) and c.func.value.id in al_))]
         writes = [w for w in writes if w is not None]
         multi = any(b.id in cfg.reach_strict(a.id) for a in writes for b in writes if a is not b)
         if multi:
